@@ -12,6 +12,7 @@ import gc
 
 from sim import sio
 from sim.world import make_world
+from sim.choices import derive
 from .common import V, REAL_SERVER, STUBS
 from .scene import Scene
 import socketio
@@ -144,6 +145,9 @@ def _run(case, cfg, w, kw):
     excs = {'RuntimeError': RuntimeError, 'ValueError': ValueError,
             'TypeError': TypeError}
 
+    owner_of = {}
+    inv_count = {}
+
     def plan(label, args, ev):
         event = label[3]
         ns = label[2]
@@ -156,8 +160,21 @@ def _run(case, cfg, w, kw):
             if beh == 'cre':
                 return [('raise', socketio.exceptions.ConnectionRefusedError(
                     'no'))]
-        if cfg['raise_p'] and w.choices.chance('faults', cfg['raise_p'], 8,
-                                               'raise'):
+        if cfg['raise_p'] and cfg.get('raise_by_content'):
+            # schedule-independent fault placement (used by the C14
+            # differential check): decided by who is concerned and how often
+            # this handler ran for them, not by a position in a choice stream
+            if event == 'connect':
+                owner_of[args[0]] = (args[1]['sim.conn'].cid, ns)
+            key = (owner_of.get(args[0]), event)
+            n_inv = inv_count.get(key, 0)
+            inv_count[key] = n_inv + 1
+            hit = derive(case['seed'], 'raise', repr(key), n_inv) % 8 \
+                < cfg['raise_p']
+        else:
+            hit = cfg['raise_p'] and w.choices.chance(
+                'faults', cfg['raise_p'], 8, 'raise')
+        if hit:
             faults['handler_raised'] += 1
             w.rec.count('fault.handler_raise.' + event)
             return [('raise', excs[cfg['exc']]('injected'))]
